@@ -249,3 +249,22 @@ def constructive(rng, case, idx):
                         w.do('Container.dilute', {'op': 'dilute', 'init': [[s_.name, q_] for s_, q_ in init_b], 'solute': solute.name,
                                                   'conc': cgg, 'solvent': solvent.name, 'second_lot': True},
                              lambda: cb.dilute(solute, cgg, solvent), expect={'op': 'Container.dilute', 'must': 'accept'})
+
+
+# --------------------------------------------------------------------------------------------------
+# directed edge workloads shared between several checks (pv/edges.py)
+
+_plan_without_edges, _run_job_without_edges = plan, run_job
+
+
+def plan(tier, seed):
+    from .common import edges_jobs
+    return _plan_without_edges(tier, seed) + edges_jobs(tier)
+
+
+def run_job(job):
+    if job['kind'] == 'edges':
+        from pv.edges import edges
+        from .common import run_cases
+        return run_cases(job, edges)
+    return _run_job_without_edges(job)
